@@ -315,6 +315,9 @@ func (g *Gen) runDefers(st *State, x *ssa.RunDefers) {
 }
 
 func (g *Gen) mergeCond(st *State, c *Term, alt *State) {
+	if alt.Epoch != st.Epoch {
+		st.Epoch = Ite(c, alt.Epoch, st.Epoch)
+	}
 	for _, n := range g.uniOrder {
 		a, b := alt.Heap[n], st.Heap[n]
 		if a != nil && b != nil && a != b {
